@@ -193,6 +193,12 @@ def next : Bytes → Option (Field × Bytes)
         | c2 :: rest2 => if c2 = B 'W' ∨ c2 = B 'w' then (.WeekOfYear, rest2) else (.WeekOfMonth, rest)
       else (.Invalid, rest)
 
+/-- `next` with the "no token here" outcome made explicit: `none` = end of input, `some none` = `Field::Invalid`. -/
+def nextNorm (s : Bytes) : Option (Option (Field × Bytes)) :=
+  match next s with
+  | none => none
+  | some (f, r) => if f = .Invalid then some none else some (some (f, r))
+
 /-- `Formatter::try_new`: iterate `next`, rejecting `Invalid` and more than `MAX_FIELDS` fields.
     `fuel` bounds the number of iterations (each consumes at least one byte; callers pass the input length). -/
 def tryNewAux : Nat → Bytes → List Field → Chk (List Field)
